@@ -710,3 +710,575 @@ def c10(run):
         if l1[i] != l2[i]:
             run.fail({'program': src, 'lint': [l1[i], l2[i]]}, 'linting the same program twice gave different reports')
     run.extra['runs_per_program'] = reps + 4
+
+
+# ----------------------------------------------------------------------------- C05
+
+class Funcs:
+    def __init__(self, rng):
+        self.rng = rng
+        g = rock.Gen(rng)
+        self.globals = [g.fresh_name() for _ in range(3)]
+        self.fnames = []
+        while len(self.fnames) < 3:
+            f = g.fresh_name()
+            if f not in self.globals and f not in self.fnames:
+                self.fnames.append(f)
+        self.gen = g
+        self.arity = {}
+        self.defs = []
+
+    def val(self, scope, d=2):
+        """unary-level expression over the names in scope"""
+        rng = self.rng
+        r = rng.random()
+        if r < 0.4 and scope:
+            return v(rng.choice(scope))
+        if r < 0.7:
+            return num(rng.randint(0, 9))
+        if r < 0.8:
+            return st(rng.choice(['a', 'bc', '']))
+        if d > 0 and self.arity and r < 0.95:
+            f, k = rng.choice(sorted(self.arity.values(), key=str))
+            args = [self.val(scope, d - 1) for _ in range(k)]
+            args = [a if (a[0] != 'call' or i == len(args) - 1) else num(1) for i, a in enumerate(args)]
+            return call(f, *args)
+        return rng.choice([TRUE, NULL, MYST])
+
+    def expr(self, scope):
+        rng = self.rng
+        a = self.val(scope)
+        if a[0] == 'call' or rng.random() < 0.5:
+            return a
+        b = self.val(scope)
+        return bin_(rng.choice(['plus', 'minus', 'multiply']), a, b)
+
+    def body(self, params, depth, in_loop=False):
+        rng = self.rng
+        scope = list(params) + self.globals
+        out = []
+        for _ in range(rng.randint(1, 4)):
+            r = rng.random()
+            if r < 0.25:
+                out.append(say(self.expr(scope)))
+            elif r < 0.45:
+                tgt = rng.choice(scope + [sv('loc' + progs.alpha(rng.randint(0, 3)))])
+                out.append(put(self.expr(scope), tgt))
+                if tgt not in scope:
+                    scope.append(tgt)
+            elif r < 0.55:
+                out.append(say(v(('pronoun', 'it'))) if out and out[-1][0] in ('assign', 'output') and rng.random() < 0.8 else say(num(7)))
+            elif r < 0.7 and depth > 0:
+                out.append(('if', self.expr(scope), self.body(params, depth - 1, in_loop), self.body(params, depth - 1, in_loop) if rng.random() < 0.4 else None))
+            elif r < 0.8 and depth > 0:
+                c = sv('cnt' + progs.alpha(rng.randint(0, 5)))
+                out += [put(num(0), c), ('while', ('bin', 'less', v(c), [num(rng.randint(1, 3))], 'is'),
+                                         [('inc', c, 1)] + self.body(params, depth - 1, True))]
+            elif r < 0.9:
+                out.append(('return', self.expr(scope), rng.random() < 0.3, False))
+            elif in_loop:
+                out.append((rng.choice(['break', 'continue']), False))
+            else:
+                out.append(say(self.expr(scope)))
+        # an if-with-else may only be the last statement of a function body
+        for i, s_ in enumerate(out[:-1]):
+            if s_[0] == 'if' and s_[3] is not None:
+                out[i] = ('if', s_[1], s_[2], None)
+        return out
+
+    def program(self):
+        rng = self.rng
+        stmts = [put(rng.choice([num(rng.randint(0, 9)), st('g')]), g) for g in self.globals]
+        for f in self.fnames:
+            k = rng.randint(1, 3)
+            params = []
+            while len(params) < k:
+                p = self.gen.fresh_name() if rng.random() < 0.7 else rng.choice(self.globals)   # shadowing
+                if p not in params and p not in self.fnames:
+                    params.append(p)
+            body = self.body(params, 2)
+            stmts.append(('func', f, params, body))
+            self.arity[repr(f)] = (f, k)
+        # recursion
+        fact = sv('factorial')
+        n_, m_ = sv('nn'), sv('mm')
+        stmts.append(('func', fact, [n_], [('if', ('bin', 'less', v(n_), [num(2)], 'is'), [('return', num(1), True, False)], None),
+                                          put(bin_('minus', v(n_), num(1)), m_),
+                                          ('return', bin_('multiply', v(n_), call(fact, v(m_))), False, False)]))
+        self.arity[repr(fact)] = (fact, 1)
+        main = []
+        for _ in range(rng.randint(2, 6)):
+            r = rng.random()
+            if r < 0.5:
+                main.append(say(self.expr(self.globals)))
+            elif r < 0.7:
+                main.append(put(self.expr(self.globals), rng.choice(self.globals)))
+            elif r < 0.8:
+                main.append(say(call(fact, num(rng.randint(0, 6)))))
+            elif r < 0.9:
+                f = rng.choice(self.fnames)
+                main.append(('callstmt', f, [self.val(self.globals, 0) for _ in range(self.arity[repr(f)][1])]))
+            else:
+                # error calls: wrong arity, non-function, unknown name, leaked local
+                main.append(rng.choice([say(call(rng.choice(self.fnames), *[num(1)] * 4)), say(call(self.globals[0], num(1))),
+                                        say(call(sv('nosuchfunction'), num(1))), say(v(sv('loca'))), say(v(n_))]))
+        for g in self.globals:
+            main.append(say(v(g)))
+        return stmts, main
+
+
+def add_unused_param(stmts, main, f):
+    """metamorphic: an extra parameter and argument that nobody uses"""
+    extra = sv('unusedparameter')
+
+    def fix(e):
+        if isinstance(e, tuple):
+            if e and e[0] == 'call' and e[1] == f:
+                return ('call', f, [num(0)] + [fix(a) for a in e[2]])
+            if e and e[0] == 'callstmt' and e[1] == f:
+                return ('callstmt', f, [num(0)] + [fix(a) for a in e[2]])
+            if e and e[0] == 'func' and e[1] == f:
+                return ('func', f, [extra] + e[2], fix(e[3]))
+            return tuple(fix(x) for x in e)
+        if isinstance(e, list):
+            return [fix(x) for x in e]
+        return e
+    return fix(stmts), fix(main)
+
+
+def c05(run):
+    rng = run.rng
+    n = run.n(700, 30000)
+    run.rule = ('programs with functions of all three name kinds, 1-3 parameters (some shadowing globals), recursion, returns inside '
+                'loops/ifs, block locals, pronoun reads, calls nested in arguments, error calls (wrong arity, non-function, unknown name, '
+                'leaked local); metamorphic oracles on the implementation: an unused extra parameter+argument changes nothing, wrapping '
+                'statements that bind no new name in `if true` changes nothing; non-trivial = at least 2 calls executed; distinct by program text')
+    cases = []
+    for i in range(n):
+        fg = Funcs(rng)
+        stmts, main = fg.program()
+        f = rng.choice(fg.fnames)
+        s2, m2 = add_unused_param(stmts, main, f)
+        k = rng.randrange(len(main))
+        wrapped = main[:k] + [('if', TRUE, [main[k]], None)] + main[k + 1:]
+        safe = main[k][0] in ('output', 'callstmt') or (main[k][0] == 'assign')      # binds no new name: globals only
+        seed = rng.random()
+        import random as _r
+        srcs = []
+        for prog in ([stmts + main], [s2 + m2], [stmts + wrapped]):
+            srcs.append(progs.render(_r.Random(seed), prog))
+        cases.append((srcs, safe, main[k]))
+    reqs = []
+    for srcs, _, _ in cases:
+        reqs += [run_req(s, steps=20000) for s in srcs]
+    m, im = run.tie(reqs, proj=proj_run, functional=True, desc=lambda i: {'program': cases[i // 3][0][i % 3]})
+    for i, (srcs, safe, wrapped_stmt) in enumerate(cases):
+        r0, r1, r2 = im[3 * i:3 * i + 3]
+        if r0 is None:
+            continue
+        c, d, out, _ = run_parts(r0)
+        ncalls = srcs[0].lower().count('taking')
+        run.case(srcs[0], ncalls >= 2, sample={'program': srcs[0][:500], 'answer': r0[:160]} if rng.random() < 0.004 else None, outcome=c)
+        if c == 'rterr':
+            run.count('error=' + d)
+        if c in ('crash', 'hang'):
+            run.fail({'program': srcs[0], 'answer': r0[:200]}, 'function program crashes')
+            continue
+        if r1 is not None and proj_run(r1) != proj_run(r0):
+            run.fail({'program': srcs[0], 'variant': srcs[1], 'answers': [r0[:300], r1[:300]]},
+                     'adding an unused parameter and argument changes the behaviour')
+        uses_pronoun_after = False
+        if r2 is not None and safe and proj_run(r2) != proj_run(r0):
+            # the pronoun is cleared when the block ends: only compare when no later statement reads it
+            run.fail({'program': srcs[0], 'variant': srcs[2], 'answers': [r0[:300], r2[:300]]},
+                     'wrapping a statement that binds no new name in `if true` changes the behaviour')
+
+
+# ----------------------------------------------------------------------------- C06
+
+def dump_stmts(var, depth=True):
+    """statements that print an array-ish variable's observable content (may end in a fatal error)"""
+    A = v(var)
+    return [say(A), say(sub(A, num(0))), say(sub(A, num(1))), say(sub(A, num(2))), say(sub(A, st('k'))), say(sub(A, TRUE)),
+            ('pop', A, ('lid', sv('popped'))), say(v(sv('popped'))), say(A)]
+
+
+def array_history(rng):
+    """a history over 3 variables copied from one another; returns (prefix stmts, mutation of X, observers of Y)"""
+    X, Y, Z = sv('xx'), sv('yy'), sv('zz')
+    F = sv('mutator')
+    init = [put(neg(num(1)), sv('negone'))]
+    # build X
+    seqn = rng.randint(0, 3)
+    init.append(('push', v(X), ('list', [rng.choice([num(i), st('s%d' % i if False else 'sa'), TRUE]) for i in range(seqn)]) if seqn else None))
+    if rng.random() < 0.5:
+        init.append(put_at(rng.choice([num(5), st('dv')]), v(X), st('k')))
+    if rng.random() < 0.3:
+        init.append(put_at(num(9), sub(v(X), num(rng.randint(0, 3))), num(rng.randint(0, 2))))
+    # copy
+    r = rng.random()
+    if r < 0.4:
+        copy_ = [put(v(X), Y)]
+    elif r < 0.6:
+        copy_ = [('push', v(Y), ('list', [v(X)])), put(sub(v(Y), num(0)), Y)]
+    elif r < 0.8:
+        copy_ = [('func', F, [sv('pp')], [('return', v(sv('pp')), False, False)]), put(call(F, v(X)), Y)]
+    else:
+        copy_ = [put_at(v(X), v(Z), st('inner')), put(sub(v(Z), st('inner')), Y)]
+    # mutation of X
+    idx = rng.choice([num(0), num(1), num(2), num(7), num(0.5), v(sv('negone')), st('k'), st('new'), TRUE, NULL])
+    r = rng.random()
+    if r < 0.3:
+        mut = put_at(rng.choice([num(42), st('changed')]), v(X), idx)
+    elif r < 0.45:
+        mut = put_at(num(43), sub(v(X), num(rng.randint(0, 2))), idx)
+    elif r < 0.6:
+        mut = ('push', v(X), ('list', [num(44), st('pushed')]))
+    elif r < 0.7:
+        mut = ('pop', v(X), None)
+    elif r < 0.8:
+        mut = ('pop', v(X), ('lid', sv('dropped')))
+    elif r < 0.88:
+        mut = ('mut', 'join', v(X), None, None)
+    elif r < 0.94:
+        mut = put(num(0), X)
+    else:
+        mut = ('assign', ('lsub', v(X), num(0)), 'plus', [num(1)], 'let')
+    return init + copy_, mut, dump_stmts(Y), dump_stmts(X)
+
+
+def c06(run):
+    rng = run.rng
+    n = run.n(700, 30000)
+    run.rule = ('histories over 3 variables: build an array (sequence, dictionary part, nested cell), copy it (assignment, through another '
+                'array, through a function argument/return, through a dictionary cell), mutate the original (index writes in range, at end, '
+                'far beyond, fractional, negative, non-numeric keys, nested subscripts, rock with lists, roll, join, overwrite, compound), '
+                'then print everything; model-free oracle: the copy prints the same with and without the mutation; plus direct Val API '
+                'store/index/push/pop histories; non-trivial = the mutation succeeds; distinct by program text')
+    cases = []
+    for i in range(n):
+        pre, mut, obs_y, obs_x = array_history(rng)
+        import random as _r
+        seed = rng.random()
+        with_m = progs.render(_r.Random(seed), [pre + [say(st('--'))] + [mut] + [say(st('=='))] + obs_y + obs_x], plain=True)
+        without = progs.render(_r.Random(seed), [pre + [say(st('--'))] + [say(st('=='))] + obs_y], plain=True)
+        cases.append((with_m, without))
+    reqs = []
+    for a, b in cases:
+        reqs += [run_req(a), run_req(b)]
+    m, im = run.tie(reqs, proj=proj_run, functional=True, desc=lambda i: {'program': cases[i // 2][i % 2]})
+    for i, (a, b) in enumerate(cases):
+        ra, rb = im[2 * i], im[2 * i + 1]
+        if ra is None or rb is None:
+            continue
+        ca, da, oa, _ = run_parts(ra)
+        cb, db, ob, _ = run_parts(rb)
+        la, lb = oa.decode('utf-8', 'replace').split('\n'), ob.decode('utf-8', 'replace').split('\n')
+        mutated = '==' in la
+        run.case(a, mutated, sample={'program': a[:400], 'printed': la[:14]} if rng.random() < 0.004 else None, outcome=ca, mutation_ok=mutated)
+        if ca in ('crash', 'hang'):
+            run.fail({'program': a, 'answer': ra[:200]}, 'array program crashes')
+            continue
+        if mutated:
+            ya = la[la.index('==') + 1:][:8]
+            yb = lb[lb.index('==') + 1:][:8]
+            if ya != yb[:len(ya)] and ya[:len(yb)] != yb:
+                run.fail({'program': a, 'copy_after_mutation': ya, 'copy_without_mutation': yb},
+                         'mutating an array changed a copy made earlier')
+            elif ya[:min(len(ya), len(yb))] != yb[:min(len(ya), len(yb))]:
+                run.fail({'program': a, 'copy_after_mutation': ya, 'copy_without_mutation': yb},
+                         'mutating an array changed a copy made earlier')
+    # direct API histories
+    U = progs.universe()
+    arrs = [u for u in U if u.startswith('[')] + ['u']
+    keys = ['#' + progs.bits(x) for x in [0.0, 1.0, 2.0, 5.0, 0.5, -1.0]] + [progs.nenc(progs.NAN), progs.senc('k'), progs.senc(''), 't', 'n', 'u', '[|]']
+    reqs2 = []
+    for a in arrs:
+        for k in keys:
+            reqs2.append('val store %s %s %s' % (a, k, progs.senc('v')))
+            reqs2.append('val index %s %s' % (a, k))
+        reqs2.append('val pop %s' % a)
+        reqs2.append('val push %s %s' % (a, '[#3ff0000000000000,s61|]'))
+    m2, im2 = run.tie(reqs2, functional=True, desc=lambda i: {'request': reqs2[i]})
+    # get-after-set on the implementation's own answers
+    follow = []
+    for rq, r in zip(reqs2, im2):
+        f = rq.split(' ')
+        if f[1] == 'store' and r and not r.startswith('err'):
+            follow.append(('val index %s %s' % (r, f[3]), rq))
+    rr = common.impl([q for q, _ in follow])
+    for (q, orig), r in zip(follow, rr):
+        run.case(('api', q), True, kind='get-after-set')
+        if r != progs.senc('v'):
+            run.fail({'store': orig, 'then': q, 'answer': r}, 'reading back a stored element does not yield it')
+
+
+# ----------------------------------------------------------------------------- C07
+
+def c07(run):
+    rng = run.rng
+    n = run.n(1500, 60000)
+    run.rule = ('strings (empty, multi-byte, delimiter at ends / repeated / overlapping), delimiters of every kind, numbers (fractions, '
+                'negatives, huge, NaN, surrogate range, > 0x10FFFF), radices -1..40 and fractional, arrays with non-string elements and '
+                'dictionary parts; each through the Val API and through statements on variables, subscripts and pronouns, with and without '
+                '`into`; oracles on the implementation: join(split(s,d),d) = s, cast(cast(n)) = n for code points, operand untouched with '
+                '`into`; non-trivial = the operation succeeds; distinct by request/program')
+    strs = ['', 'a', 'abc', 'a,b,c', ',a,', ',,', 'aaa', 'aaaa', 'abab', 'héllo wörld', 'Ω', '日本語', 'a b  c', 'x\ny', '1,2', 'aXbXc', 'XX', 'é,é']
+    delims = ['', ',', 'a', 'aa', 'ab', 'X', ' ', 'é', 'abc', 'zzz', ',,', '\n']
+    reqs, meta = [], []
+    for s in strs:
+        for d in delims + [None]:
+            reqs.append('val split %s %s' % (progs.senc(s), '-' if d is None else progs.senc(d)))
+            meta.append(('split', s, d))
+    for other in ['u', 'n', 't', progs.nenc(1.0), '[|]', '[s61|]']:
+        reqs.append('val split %s %s' % (progs.senc('a,b'), other)); meta.append(('split-bad-delim', 'a,b', other))
+        reqs.append('val split %s -' % other); meta.append(('split-bad-operand', other, None))
+        if not other.startswith('['):
+            reqs.append('val join %s -' % other); meta.append(('join-bad-operand', other, None))
+        reqs.append('val join [s61,s62|] %s' % other); meta.append(('join-bad-delim', other, None))
+        reqs.append('val join [s61,%s|] -' % other); meta.append(('join-bad-elem', other, None))
+    for a in ['[|]', '[s61|]', '[s61,s62,s63|]', '[s61|s6b=s7a]', '[|s62=s79,s61=s78,s63=s7a]', '[s61,#3ff0000000000000|]', '[s61|s6b=#3ff0000000000000]']:
+        for d in ['-', 's', 's2c', progs.senc('--')]:
+            reqs.append('val join %s %s' % (a, d)); meta.append(('join', a, d))
+    nums = [0.0, 65.0, 97.0, 0x3A9, 0x10FFFF, 0x110000, 0xD800, 0xDFFF, 0xE000, -1.0, 0.5, 65.5, 1e300, progs.NAN, progs.INF, -progs.INF, 4294967296.0 + 65, -0.0]
+    for x in nums:
+        reqs.append('val cast %s -' % progs.nenc(float(x))); meta.append(('cast-num', x, None))
+        reqs.append('val cast %s %s' % (progs.nenc(float(x)), progs.nenc(2.0))); meta.append(('cast-num-param', x, 2))
+        for d in ('up', 'down', 'nearest'):
+            reqs.append('val round %s %s' % (progs.nenc(float(x)), d)); meta.append(('round', x, d))
+    nstrs = ['', '0', '10', '-10', '+7', 'ff', 'FF', 'zz', '1.5', '1e3', ' 1', '1 ', 'abc', '9223372036854775807', '9223372036854775808',
+             '-9223372036854775808', '-9223372036854775809', 'inf', 'nan', '-', '+', '１２', '0x10', '1_0', '.5', '5.', '1e400', '٣']
+    radices = [float(r) for r in range(-1, 41)] + [2.5, 1e10, 4294967298.0, progs.NAN, progs.INF, -0.0]
+    for s in nstrs:
+        reqs.append('val cast %s -' % progs.senc(s)); meta.append(('cast-str', s, None))
+        for r in (radices if run.tier == 'thorough' or s in ('10', 'ff', 'zz', '-10') else rng.sample(radices, 6)):
+            reqs.append('val cast %s %s' % (progs.senc(s), progs.nenc(r))); meta.append(('cast-radix', s, r))
+        for other in ['u', 't', progs.senc('10'), '[|]']:
+            reqs.append('val cast %s %s' % (progs.senc(s), other)); meta.append(('cast-bad-param', s, other))
+    for other in ['u', 'n', 't', '[|]']:
+        reqs.append('val cast %s -' % other); meta.append(('cast-bad-operand', other, None))
+        reqs.append('val round %s up' % other); meta.append(('round-bad', other, None))
+    m, im = run.tie(reqs, functional=True, desc=lambda i: {'request': reqs[i]})
+    follow, fmeta = [], []
+    for (kind, a, b), rq, r in zip(meta, reqs, im):
+        if r is None:
+            continue
+        ok = not r.startswith('err')
+        run.case(rq, ok, sample={'request': rq, 'answer': r[:80]} if rng.random() < 0.003 else None, op=kind, ok=ok)
+        if first_word(r) in ('crash', 'hang', 'bad'):
+            run.fail({'request': rq, 'answer': r}, 'a mutation panics instead of reporting an error')
+        if kind == 'split' and ok:
+            follow.append('val join %s %s' % (r, '-' if b is None else progs.senc(b))); fmeta.append(('join-split', a, b, r))
+        if kind == 'cast-num' and ok:
+            follow.append('val cast %s -' % r) if False else None
+        if kind.startswith('cast-bad') or kind.startswith('split-bad') or kind.startswith('join-bad') or kind in ('round-bad', 'cast-num-param'):
+            if ok:
+                run.fail({'request': rq, 'answer': r}, 'an operand or parameter of the wrong kind is accepted')
+        if kind == 'cast-radix':
+            rr = b
+            valid = rr == rr and rr == int(rr) if rr not in (progs.INF, -progs.INF) else False
+            valid = valid and 2 <= rr <= 36
+            if not valid and ok:
+                run.fail({'request': rq, 'answer': r}, 'an invalid radix is accepted')
+        if kind == 'cast-num':
+            x = a
+            valid = x == x and x not in (progs.INF, -progs.INF) and x == int(x) and 0 <= x <= 0x10FFFF and not (0xD800 <= x <= 0xDFFF)
+            if valid != ok:
+                run.fail({'request': rq, 'answer': r}, 'number-to-character cast accepts an invalid code point or rejects a valid one')
+            elif ok and r != progs.senc(chr(int(x))):
+                run.fail({'request': rq, 'answer': r}, 'number-to-character cast yields the wrong character')
+    fr = common.impl(follow)
+    for (kind, s, d, arr), q, r in zip(fmeta, follow, fr):
+        run.case(q, True, op='join-after-split')
+        if r != progs.senc(s):
+            run.fail({'string': s, 'delimiter': d, 'split': arr, 'joined': r}, 'join(split(s, d), d) is not s')
+        # every piece is free of the delimiter
+        if d:
+            pieces = [bytes.fromhex(p[1:]).decode() for p in arr[1:-2].split(',') if p] if arr != '[|]' else []
+            if any(d in p for p in pieces):
+                run.fail({'string': s, 'delimiter': d, 'split': arr}, 'a piece of a split contains the delimiter')
+    # statement level: with / without `into`, on variables, subscripts, pronouns
+    cases = []
+    for i in range(n // 10):
+        cases.append(mutation_program(rng, strs, delims))
+    reqs2 = [run_req(src) for src, _ in cases]
+    m2, im2 = run.tie(reqs2, proj=proj_run, functional=True, desc=lambda i: {'program': cases[i][0]})
+    for (src, info), r in zip(cases, im2):
+        if r is None:
+            continue
+        c, d, out, _ = run_parts(r)
+        run.case(src, c == 'ok', sample={'program': src[:300], 'answer': r[:120]} if rng.random() < 0.01 else None, op='stmt-' + info['op'], outcome=c)
+        if c in ('crash', 'hang'):
+            run.fail({'program': src, 'answer': r[:200]}, 'mutation statement crashes')
+            continue
+        lines = out.decode('utf-8', 'replace').split('\n')
+        if c == 'ok' and info['into'] and lines[0] != lines[1]:
+            run.fail({'program': src, 'printed': lines[:4]}, 'a mutation with an `into` destination changed its operand')
+        if c == 'ok' and info['op'] == 'roundtrip' and lines[-2] != 'true':
+            run.fail({'program': src, 'printed': lines[:6]}, 'cut then join does not restore the string')
+
+
+def mutation_program(rng, strs, delims):
+    S, P, R, A = sv('ss'), sv('pp'), sv('rr'), sv('arr')
+    r = rng.random()
+    s = rng.choice(strs)
+    d = rng.choice(delims)
+    while '"' in s or '"' in d or '\n' in s or '\n' in d:
+        s, d = rng.choice(strs), rng.choice(delims)
+    if r < 0.4:
+        # round trip through statements: operand keeps its value with `into`
+        prog = [put(st(s), S), say(v(S)), ('mut', 'cut', v(S), ('lid', P), st(d)), say(v(S)),
+                ('mut', 'join', v(P), ('lid', R), st(d)), say(('bin', 'eq', v(R), [v(S)], 'is') if s else TRUE)]
+        return progs.render(rng, [prog]), {'op': 'roundtrip', 'into': True}
+    op = rng.choice(['cut', 'join', 'cast', 'turn'])
+    operand_val = {'cut': st(s), 'join': None, 'cast': rng.choice([st('42'), num(65), st('ff')]), 'turn': num(rng.choice([1.5, -1.5, 2.0, 0.4]))}[op]
+    place = rng.choice(['var', 'subscript', 'pronoun'])
+    prog = []
+    if op == 'join':
+        prog.append(('push', v(S), ('list', [st('a'), st('b'), rng.choice([st('c'), num(1)])])))
+    else:
+        prog.append(put(operand_val, S))
+    target = v(S)
+    if place == 'subscript':
+        prog.append(put_at(v(S), v(A), num(1)))
+        target = sub(v(A), num(1))
+    into = rng.random() < 0.5 and op != 'turn'
+    param = {'cut': st(d), 'join': st(d), 'cast': rng.choice([None, num(16), num(1), st('x')]), 'turn': None}[op]
+    if rng.random() < 0.3:
+        param = None
+    prog.append(say(target))
+    if place == 'pronoun' and not into:
+        prog.append(say(v(S)))              # makes S the pronoun referent
+        tgt = v(('pronoun', 'it'))
+    else:
+        tgt = target
+    if op == 'turn':
+        prog.append(('round', rng.choice(['up', 'down', 'nearest']), tgt, rng.random() < 0.5))
+    else:
+        prog.append(('mut', op, tgt if (into or tgt[0] == 'id') else tgt, ('lid', R) if into else None, param))
+    prog.append(say(target))
+    if into:
+        prog.append(say(v(R)))
+    return progs.render(rng, [prog]), {'op': op, 'into': into}
+
+
+# ----------------------------------------------------------------------------- C15
+
+ADVERSARIAL = ['İstanbul', '\u212aelvin', 'ǅemal', 'Ωmega', 'Éclair', 'straße']
+
+
+def rename_tree(t, mapping):
+    if isinstance(t, tuple):
+        if t and t[0] in ('simple', 'common', 'proper') and len(t) >= 2 and isinstance(t[1], (str, list)):
+            key = name_key(t)
+            if key in mapping:
+                return mapping[key]
+            return t
+        return tuple(rename_tree(x, mapping) for x in t)
+    if isinstance(t, list):
+        return [rename_tree(x, mapping) for x in t]
+    return t
+
+
+def name_key(n):
+    if n[0] == 'simple':
+        return ('simple', n[1].lower())
+    if n[0] == 'common':
+        return ('common', n[1].lower(), n[2].lower())
+    return ('proper', tuple(w.lower() for w in n[1]))
+
+
+def collect_names(t, acc):
+    if isinstance(t, tuple):
+        if t and t[0] in ('simple', 'common', 'proper') and len(t) >= 2 and isinstance(t[1], (str, list)):
+            acc.add(name_key(t))
+            return
+        for x in t:
+            collect_names(x, acc)
+    elif isinstance(t, list):
+        for x in t:
+            collect_names(x, acc)
+
+
+def safe_recase_char(c, rng):
+    """change the case of a letter only when both cases fold to the same lowercase character"""
+    for cand in (c.upper(), c.lower()):
+        if cand != c and len(cand) == 1 and cand.lower() == c.lower() and len(cand.lower()) == 1 and rng.random() < 0.5:
+            return cand
+    return c
+
+
+def recase_mentions(t, rng):
+    """per-mention case variation that keeps the kind's syntax (proper names stay capitalised,
+    simple and common names must not become a run of capitalised words)"""
+    if isinstance(t, tuple):
+        if t and t[0] == 'simple' and isinstance(t[1], str) and len(t) == 2:
+            w = ''.join(safe_recase_char(c, rng) for c in t[1])
+            return ('simple', w)
+        if t and t[0] == 'common' and len(t) == 3 and isinstance(t[1], str):
+            return ('common', ''.join(safe_recase_char(c, rng) for c in t[1]), ''.join(safe_recase_char(c, rng) for c in t[2]))
+        if t and t[0] == 'proper' and isinstance(t[1], list):
+            return ('proper', [w[0] + ''.join(safe_recase_char(c, rng) for c in w[1:]) for w in t[1]])
+        return tuple(recase_mentions(x, rng) for x in t)
+    if isinstance(t, list):
+        return [recase_mentions(x, rng) for x in t]
+    return t
+
+
+def c15(run):
+    rng = run.rng
+    n = run.n(500, 20000)
+    run.rule = ('programs of the C04/C05/C06 generators x an injective renaming of every name into a fresh simple/common/proper name '
+                '(ASCII, accented and adversarial letters: dotted I, Kelvin sign, sharp s) x per-mention recasing of names and keywords; '
+                'original and transformed program run on the implementation, outputs and outcome class compared (model-free); '
+                'non-trivial = the program mentions >= 3 distinct names; distinct by program text')
+    cases = []
+    while len(cases) < n:
+        r = rng.random()
+        if r < 0.4:
+            fg = Funcs(rng)
+            stmts, main = fg.program()
+            prog = [stmts + main]
+        elif r < 0.7:
+            prog = progs.Flow(rng).program(depth=rng.randint(1, 3))
+        else:
+            pre, mut, oy, ox = array_history(rng)
+            prog = [pre + [mut] + oy + ox]
+        names = set()
+        collect_names(prog, names)
+        g = rock.Gen(rng, keyword_nouns=False)
+        fresh = {}
+        used = set(names)
+        pool = list(names)
+        for k in sorted(names, key=str):
+            while True:
+                cand = g.fresh_name()
+                if rng.random() < 0.15:
+                    w = rng.choice(ADVERSARIAL)
+                    # a proper-name word must start with an uppercase letter (titlecase ǅ and ß do not qualify)
+                    cand = ('simple', w) if (rng.random() < 0.5 or w[0] in 'ǅs') else ('proper', [w, 'Jones'])
+                if cand[0] == 'simple' and cand[1][0].isupper() and False:
+                    continue
+                ck = name_key(cand)
+                if ck not in used and all(name_key(x) != ck for x in fresh.values()):
+                    break
+            fresh[k] = cand
+            used.add(name_key(cand))
+        renamed = rename_tree(prog, fresh)
+        recased = recase_mentions(renamed, rng)
+        a = progs.render(rng, prog, plain=True)
+        b = rock.Speller(rng, noise=0.05, comments=0.02, recase=0.7).program(recased)
+        cases.append((a, b, len(names)))
+    reqs = []
+    for a, b, _ in cases:
+        reqs += [run_req(a), run_req(b)]
+    m, im = run.tie(reqs, proj=proj_run, functional=True, desc=lambda i: {'program': cases[i // 2][i % 2]})
+    for i, (a, b, k) in enumerate(cases):
+        ra, rb = im[2 * i], im[2 * i + 1]
+        if ra is None or rb is None:
+            continue
+        pa, pb = proj_run(ra), proj_run(rb)
+        run.case(b, k >= 3, sample={'original': a[:300], 'renamed': b[:300], 'answer': ra[:100]} if rng.random() < 0.004 else None, outcome=pa[0], names=min(k, 12))
+        if pa != pb:
+            run.fail({'original': a, 'renamed_recased': b, 'answers': [ra[:300], rb[:300]]},
+                     'renaming names / re-casing mentions or keywords changed the behaviour')
